@@ -112,6 +112,8 @@ pub fn units(tier: Tier, _seed: u64) -> Vec<Unit> {
         add(VK::CoG(n), Bound::CogBound, true, "|out| <= (n-1)/2 for positive inputs", k);
         if n <= 3 { add(VK::EFT(n, Box::new(VK::Echo)), Bound::Ln199, false, "|out| <= ln 199", if tier == Tier::Quick { n + 3 } else { n + 4 }); }
         if n == 2 { add(VK::EFT(n, Box::new(VK::Ema(2))), Bound::Ln199, false, "|out| <= ln 199", 5); }
+        // an average that can overshoot its inputs: the clamp to +-0.99 must act on the smoothed value
+        if n == 2 { add(VK::EFT(n, Box::new(VK::SuperSmoother(1))), Bound::Ln199, false, "|out| <= ln 199", 5); add(VK::EFT(n, Box::new(VK::SuperSmoother(2))), Bound::Ln199, false, "|out| <= ln 199", 6); }
         u.push(unit!(format!("C07/Min<=Sma,Alma,newest<=Max/N={n}/k={k}"), sandwich(n, if n >= 4 { n + 3 } else { k })));
         if n >= 3 {
             for ma in [VK::Echo, VK::Sma(2), VK::Ema(2)] {
@@ -129,7 +131,7 @@ pub fn units(tier: Tier, _seed: u64) -> Vec<Unit> {
 }
 pub fn meta() -> Meta {
     Meta {
-        functions: vec!["Rsi", "MyRSI", "HLNormalizer", "CorrelationTrendIndicator", "NoiseEliminationTechnology", "Tanh", "PolarizedFractalEfficiency (identity, Sma(2), Ema(2) average)", "LaguerreRSI", "BinaryEntropy", "EhlersFisherTransform (identity and Ema(2) average)", "WelfordOnline", "WelfordRolling", "Vsct", "Min", "Max", "Sma", "Alma", "GTE", "LTE", "Drawdown", "CenterOfGravity — each ::{new,update,last}"],
+        functions: vec!["Rsi", "MyRSI", "HLNormalizer", "CorrelationTrendIndicator", "NoiseEliminationTechnology", "Tanh", "PolarizedFractalEfficiency (identity, Sma(2), Ema(2) average)", "LaguerreRSI", "BinaryEntropy", "EhlersFisherTransform (identity, Ema(2) and SuperSmoother(1|2) average)", "WelfordOnline", "WelfordRolling", "Vsct", "Min", "Max", "Sma", "Alma", "GTE", "LTE", "Drawdown", "CenterOfGravity — each ::{new,update,last}"],
         bounds: "N in {2,3} (quick) / {2..5} (thorough; NET to 5, LaguerreRSI to 4, EFT to 3); k = 2N+2 (N+2..N+4 for the heavily branching views); inputs unconstrained reals (positive where the statement says so); symbolic clip point for GTE/LTE; all comparison outcomes",
         outside: vec!["the f64 clause 'up to a few ulps of the bound': decided over the reals here; engine K covers comparison-only kernels (see kani/)", "N > 5, longer streams"],
         assumptions: vec!["|tanh| < 1, exp > 0 and monotonicity of ln with ln(199) < 5.2933049 are axioms about libm functions (uninterpreted in the solver)", "PFE: the documented bound contradicts the formula C11 prescribes (flat window gives N/(N-2)); this is a known finding, and a second obligation checks that PFE leaves [-1,1] only where that reference formula does"],
